@@ -31,6 +31,7 @@ func concScenario(pubs int, script []string, withHandler bool, bound int) *vsche
 				return fpgo.Subscription[int]{OnNext: func(v int) {
 					vsched.Event("deliver", s, v, vsched.ThreadName())
 					vsched.Yield()
+					vsched.Event("deliver-end", s, v)
 				}}
 			}
 			handles := map[int]*fpgo.Subscription[int]{}
@@ -76,6 +77,26 @@ func concScenario(pubs int, script []string, withHandler bool, bound int) *vsche
 				return fs
 			}
 			idx := func(kind string, a ...interface{}) int { return e1.Index(r, kind, a...) }
+			if withHandler {
+				// "on h": one goroutine makes all the deliveries, one at a time
+				on, inside := "", 0
+				for _, e := range r.Events {
+					switch e.Kind {
+					case "deliver":
+						if on == "" {
+							on = e.Args[2].(string)
+						} else if on != e.Args[2].(string) {
+							fs = append(fs, e1.Fail("C10|"+fam+"|wrong-goroutine", "with SubscribeOn(h) deliveries ran on two different goroutines (%s and %s): they do not all happen on h", on, e.Args[2]))
+						}
+						if inside > 0 {
+							fs = append(fs, e1.Fail("C10|"+fam+"|overlap", "with SubscribeOn(h) two deliveries ran at the same time"))
+						}
+						inside++
+					case "deliver-end":
+						inside--
+					}
+				}
+			}
 			for v := 1; v <= pubs; v++ {
 				pb, pe := -1, -1
 				pubThread := ""
